@@ -1,7 +1,7 @@
 SPECIFICATION SpecFull
 CONSTANTS
   AttrPrefixes = {"-", "@", ""}
-  KeyPrefixes = {"#", "_"}
+  KeyPrefixes = {"#", "_", "$", "+"}
   FieldSeps = {":", "|"}
   ArraySizes = {0, 64}
   ActiveFns <- AllFns
